@@ -654,6 +654,9 @@ class Interp(object):
         raise Unsupported("setattr on %r.%s at %s" % (base, attr, self.loc(node)))
 
     def set_item(self, st, base, idx, v, node):
+        if hasattr(base, "abs_setitem"):
+            base.abs_setitem(self, st, idx, v, node)
+            return [(st, "next", None)]
         if isinstance(base, Ref):
             o = st.wobj(base)
             self.emit(st, ("mutate", base.oid, o.label, "setitem"))
